@@ -82,6 +82,21 @@ int main(int argc, char **argv)
             printf("F %d null=%d", i, v[i] == NULL);
             if (old) printf(" oldfreed=%d", !__sanitizer_get_ownership(old));
             break;
+        case 'O':   /* a CALLOC whose byte count overflows size_t: refused (NULL) with tracking off, so it must be with tracking compiled in.
+                     * Only at runtime level 0: above it a failed allocation is fatal by design in the tracking build. */
+            if (fscanf(fp, "%d", &i) != 1) return 2;
+            if (libast_debug_level == 0) {
+                size_t cnt = ((size_t) -1) / sizeof(long) + 3;
+                if (v[i]) FREE(v[i]);
+                v[i] = CALLOC(long, cnt);
+                want[i] = 16; seed[i] = n;
+                printf("O %d nonnull=%d", i, v[i] != NULL);
+                if (v[i]) FREE(v[i]);
+            } else {
+                if (v[i]) FREE(v[i]);
+                printf("O %d nonnull=0", i);
+            }
+            break;
         case 'S':
             if (fscanf(fp, "%d %500s", &i, text) != 2) return 2;
             if (v[i]) FREE(v[i]);
